@@ -472,7 +472,7 @@ class Engine:
     def rvalue(self, fr, s):
         s = s.strip()
         if s.startswith("no_retag "): s = s[9:]
-        m = re.match(r"^(.*) as (.*) \((PointerCoercion|IntToInt|Transmute|PtrToPtr)(.*)\)$", s)
+        m = re.match(r"^(.*) as (.*) \((PointerCoercion|IntToInt|Transmute|PtrToPtr|BoxDerefTransmute|IntToFloat|FloatToInt|FnPtrToPtr|PointerExposeProvenance|PointerWithExposedProvenance|Subtype)(.*)\)$", s)
         if m:
             if "ReifyFnPointer" in m.group(4) and not m.group(1).startswith(("copy ", "move ", "const ")): return FnPtr(m.group(1))
             v = self.operand(fr, m.group(1)); kind = m.group(3); ty = m.group(2)
@@ -487,6 +487,7 @@ class Engine:
                 if v.ty[0] == "i" and x >> (sb - 1): x -= 1 << sb
                 return Sc(ty, x & ((1 << bits) - 1))
             if "ReifyFnPointer" in m.group(4) or "ClosureFnPointer" in m.group(4): return v
+            if isinstance(v, Agg) and v.tag in ("Unique", "NonNull") and v.f and isinstance(v.f[0], Slot): return v.f[0]
             return v
         if s.startswith(("copy ", "move ", "const ")): return self.operand(fr, s)
         if s.startswith("&mut "): return self.place_slot(fr, s[5:])
